@@ -22,7 +22,7 @@ def judge(rep, cases, obs, probes_fn, keyfn, seed):
     rej = {x[0] for x in rejects}
     missing = [p["id"] for p in probes if p["id"] not in rej]
     if missing or not probes:
-        raise core.MachineryError("P accepted corrupted traces: %s" % missing)
+        core.probe_fail(rejects, "P accepted corrupted traces: %s" % missing)
     rep.extra["probes_rejected"] = rep.extra.get("probes_rejected", 0) + len(probes)
     rep.traces += len(traces)
     for tid, clause, _ in rejects:
